@@ -26,7 +26,7 @@ func selftest() int {
 		profiles []string
 	}
 	engines := []eng{
-		{"cachesim", false, []string{"mixed", "collide", "overwrite", "capacity", "delete", "single", "ttl", "close", "metrics", "agree"}},
+		{"cachesim", false, []string{"mixed", "collide", "overwrite", "capacity", "delete", "single", "singlettl", "ttl", "rewrite", "close", "metrics", "agree"}},
 	}
 	if _, err := os.Stat(filepath.Join(verifRoot, "sim", "zsim", "worker_test.go")); err == nil {
 		engines = append(engines, eng{"zsim", false, []string{"tree", "buffer", "alloc", "treereopen"}})
